@@ -51,6 +51,7 @@ func init() {
 			{ID: "R05x", Floor: 1, Doc: "the roots handed to a writer constructor are a list: a root list built locally starts from make or a literal, never from the nil slice (which the header encoder writes as CBOR null)", Run: ruleR05x},
 			{ID: "R05y", Floor: 3 + 4 + 1 + 1, Doc: "what the library finalized is accepted by the library's verifying readers: the hash gate compares under the CID's own prefix, digest length included (= R02a)", Run: ruleR02a},
 			{ID: "R05z", Floor: 1, Doc: "a full inspection re-hashes to the digest length the CID carries (= R02h)", Run: ruleR02h},
+			{ID: "R05A", Floor: 1, Doc: "car get-dag writes its output into a fresh file: in writeCarV2 the path handed to blockstore.OpenReadWrite has been removed (os.Remove/RemoveAll) or emptied (os.Truncate/os.Create) on every way there — OpenReadWrite resumes on a file that exists, and a resumed output carries the sections of the earlier run in front of this one's", Run: ruleR05A},
 		},
 	})
 }
